@@ -117,23 +117,6 @@ pub open spec fn msg_counts_ok(m: Message, o: Seq<u8>) -> bool {
     &&& m.authority@.len() == be16(o[8], o[9])
     &&& m.additional@.len() == be16(o[10], o[11])
 }
-pub open spec fn rr_names_wf(d: RecordTypeWithData) -> bool {
-    match d {
-        RecordTypeWithData::NS { nsdname } => nsdname.wf(),
-        RecordTypeWithData::MD { madname } => madname.wf(),
-        RecordTypeWithData::MF { madname } => madname.wf(),
-        RecordTypeWithData::CNAME { cname } => cname.wf(),
-        RecordTypeWithData::SOA { mname, rname, .. } => mname.wf() && rname.wf(),
-        RecordTypeWithData::MB { madname } => madname.wf(),
-        RecordTypeWithData::MG { mdmname } => mdmname.wf(),
-        RecordTypeWithData::MR { newname } => newname.wf(),
-        RecordTypeWithData::PTR { ptrdname } => ptrdname.wf(),
-        RecordTypeWithData::MINFO { rmailbx, emailbx } => rmailbx.wf() && emailbx.wf(),
-        RecordTypeWithData::MX { exchange, .. } => exchange.wf(),
-        RecordTypeWithData::SRV { target, .. } => target.wf(),
-        _ => true,
-    }
-}
 """
 
 
@@ -144,6 +127,7 @@ def build(G):
     T, D = G.src(TYPES), G.src(DESER)
     G.item(D, "enum", "Error")
     G.item(D, "struct", "ConsumableBuffer")
+    G.file(os.path.join(PRELUDE, "wire_spec.rs"))
     G.raw(SPEC_RS, ("spec", "wire_decode spec"))
     assumed = as_assumed(NAME_SPECS, ["Label::new", "Label::len", "Label::is_empty", "Label::try_from"])
     specs = dict(SPECS)
